@@ -109,7 +109,40 @@ void view_battery(Ctx &c, const std::string &A, const std::string &B) {
 	c.check_san("C15");
 }
 
+// decimal rendering of an unsigned 128-bit value
+std::string dec128(unsigned __int128 v) { if(!v) return "0"; std::string s; while(v) { s.insert(s.begin(), char('0' + (int)(v % 10))); v /= 10; } return s; }
+template<typename T>
+void number_type_checks(Ctx &c, const std::string &A, bool digits, unsigned __int128 value, bool fits128, const char *tname) {
+	constexpr unsigned __int128 tmax = std::is_signed_v<T> ? (unsigned __int128)(~(unsigned __int128)0 >> (129 - 8 * sizeof(T))) : (unsigned __int128)(~(unsigned __int128)0 >> (128 - 8 * sizeof(T)));
+	// the generated digit string, when it fits
+	if(digits && fits128 && value <= tmax) {
+		frg::string_view va(exact(c, A), A.size());
+		auto r = va.to_number<T>();
+		VCHECK(c, "C15", r && (unsigned __int128)*r == value, "to_number<%s>(%s) is %s although the value fits", tname, A.c_str(), r ? "another value" : "null_opt");
+	}
+	// the boundary values of the type: max, max-1, max/10, max/10+1, with and without leading zeros
+	for(unsigned __int128 v : {tmax, tmax - 1, tmax / 10, tmax / 10 + 1, (unsigned __int128)0, (unsigned __int128)9}) {
+		for(int zeros = 0; zeros < 2; zeros++) {
+			std::string d = std::string(zeros ? 2 : 0, '0') + dec128(v);
+			frg::string_view vv(exact(c, d), d.size());
+			auto r = vv.to_number<T>();
+			VCHECK(c, "C15", r && (unsigned __int128)*r == v, "to_number<%s>(%s) is %s although the value fits (the largest value of the type is %s)", tname, d.c_str(), r ? "another value" : "null_opt", dec128(tmax).c_str());
+		}
+	}
+}
 void number_checks(Ctx &c, const std::string &A) {
+	{
+		bool digits = !A.empty() && A.size() <= 38; unsigned __int128 value = 0;
+		for(unsigned char ch : A) { if(ch < '0' || ch > '9') { digits = false; break; } value = value * 10 + (ch - '0'); }
+		bool fits128 = digits;       // <= 38 digits always fit into 128 bits
+		number_type_checks<int8_t>(c, A, digits, value, fits128, "int8_t"); number_type_checks<uint8_t>(c, A, digits, value, fits128, "uint8_t");
+		number_type_checks<int16_t>(c, A, digits, value, fits128, "int16_t"); number_type_checks<uint16_t>(c, A, digits, value, fits128, "uint16_t");
+		number_type_checks<int32_t>(c, A, digits, value, fits128, "int32_t"); number_type_checks<uint32_t>(c, A, digits, value, fits128, "uint32_t");
+		number_type_checks<int64_t>(c, A, digits, value, fits128, "int64_t"); number_type_checks<uint64_t>(c, A, digits, value, fits128, "uint64_t");
+		number_type_checks<long long>(c, A, digits, value, fits128, "long long"); number_type_checks<unsigned long long>(c, A, digits, value, fits128, "unsigned long long");
+		number_type_checks<__int128>(c, A, digits, value, fits128, "__int128"); number_type_checks<unsigned __int128>(c, A, digits, value, fits128, "unsigned __int128");
+		c.tag("to_number-all-types");
+	}
 	View va(exact(c, A), A.size());
 	bool digits = !A.empty(), foreign = false;
 	for(unsigned char ch : A) { if(ch < '0' || ch > '9') { digits = false; if(ch != '+' && ch != '-') foreign = true; } }
@@ -231,7 +264,14 @@ void history(Ctx &c) {
 template<typename Char>
 std::basic_string<Char> widen(const std::string &s, unsigned salt) {
 	std::basic_string<Char> w;
-	for(size_t i = 0; i < s.size(); i++) w.push_back((Char)(((unsigned char)s[i] & 0x7f) + (((i + salt) & 1) ? 0x100u : 0u) + ((sizeof(Char) > 2 && ((i + salt) & 2)) ? 0x10000u : 0u)));
+	for(size_t i = 0; i < s.size(); i++) {
+		Char u = (Char)(((unsigned char)s[i] & 0x7f) + (((i + salt) & 1) ? 0x100u : 0u) + ((sizeof(Char) > 2 && ((i + salt) & 2)) ? 0x10000u : 0u));
+		// the extremes of the character type (differences that do not fit into int / into the signed type of the same width)
+		if(((unsigned char)s[i] & 0x80) && ((unsigned char)s[i] & 3) == 0) u = (Char)~(Char)0;
+		else if(((unsigned char)s[i] & 0x80) && ((unsigned char)s[i] & 3) == 1) u = (Char)((Char)1 << (8 * sizeof(Char) - 1));
+		else if(((unsigned char)s[i] & 0x80) && ((unsigned char)s[i] & 3) == 2) u = (Char)(((Char)1 << (8 * sizeof(Char) - 1)) + 0x10000000u * (sizeof(Char) > 2));
+		w.push_back(u);
+	}
 	return w;
 }
 template<typename Char>
